@@ -157,7 +157,7 @@ def compare(ips, jps, legacy_load=False):
                     for (sw, sa, sx), (jw, ja, jx) in zip(ip["atomics"], jp["atomics"])):
                 diffs.append("atomic adds differ: interpreter %s, JIT %s" % (len(ip["atomics"]), len(jp["atomics"])))
         if not covered:
-            diffs.append("no JIT path for interpreter condition %s" % [T.show(c) for c in ip["conds"]])
+            diffs.append("no JIT path for interpreter condition %s" % [T.show(c) for c in ip0["conds"]])
     return sorted(set(diffs))
 
 
